@@ -235,3 +235,5 @@ func vfIteU8(c bool, a, b uint8) uint8 {
 	}
 	return b
 }
+
+func vfShow(label string, v uint32) {}
